@@ -42,7 +42,9 @@ def errSignature (s : VSchema) : VErr → String
   | .variableNotInputType _ => "variable-not-input-type"
   | .undefinedVariable _ inObj => if inObj then "undeclared-variable:in-object-argument" else "undeclared-variable:plain"
   | .unusedVariable _ => "unused-variable"
-  | .variableTypeMismatch _ varTy locTy =>
+  | .variableTypeMismatch name varTy locTy =>
+    -- the refetch machinery's own `$id: ID!` shadows a user variable that is also called `id`
+    if name == cs!"id" && Ty.inner varTy == cs!"ID" && Ty.inner locTy != cs!"ID" then "variable-type-mismatch:user-variable-named-id" else
     match s.get? (Ty.inner locTy), s.get? (Ty.inner varTy) with
     | some (.input _), some (.input _) => "variable-type-mismatch:other"
     | some (.input _), _ => "variable-type-mismatch:object-argument-replaced-by-variable"
